@@ -212,7 +212,30 @@ def run_case(case, rec, ctx):
     if case["map"] == "repeat_inverse":
         back = new.rename_symbols({v: k for k, v in renames.items()})
         same_order = all(list(getattr(back, a)) == list(getattr(model, a)) for a in ("amplitudes", "parameter_defaults", "kinematic_variables", "components"))
-        rec.check(back == model and same_order, "inverse_rename", f"{label}: renaming and renaming back does not give the original model", None, ctx["feats"])
+        ok_back = back == model
+        if not ok_back and same_order:
+            # SymPy re-canonicalises signs when a renamed symbol sorts differently (Abs(-x) -> Abs(x), -a/(−b) -> a/b): entries that differ
+            # structurally must still be the same function - compared numerically at a random point
+            from vmon.numeval import eval_expr
+            ok_back = True
+            for attr in ("amplitudes", "parameter_defaults", "kinematic_variables", "components"):
+                for k_, v0 in getattr(model, attr).items():
+                    v1 = getattr(back, attr)[k_]
+                    if v0 == v1:
+                        continue
+                    if not (isinstance(v0, sp.Basic) and isinstance(v1, sp.Basic)):
+                        ok_back = False
+                        continue
+                    fs_ = sorted((v0.free_symbols | v1.free_symbols), key=str)
+                    vals_ = {s_: (complex(rng.normal(), rng.normal()) if s_.name.startswith(("C_", "H_")) else float(rng.uniform(0.3, 2.5))) for s_ in fs_
+                             if isinstance(s_, sp.Symbol)}
+                    try:
+                        a_, b_ = np.asarray(eval_expr(v0, vals_)), np.asarray(eval_expr(v1, vals_))
+                        ok_back &= bool(np.allclose(a_, b_, rtol=1e-10, atol=1e-300, equal_nan=True))
+                        rec.note("inverse_rename:structural_difference_numerically_equal")
+                    except Exception:  # noqa: BLE001
+                        ok_back = False
+        rec.check(ok_back and same_order, "inverse_rename", f"{label}: renaming and renaming back does not give the original model", None, ctx["feats"])
         again = new.rename_symbols(renames)
         rec.check(again == new, "repeated_rename", f"{label}: applying the same rename twice changes the model again", None, ctx["feats"])
         also = new.rename_symbols(list({v: v + "_2" for v in renames.values()}.items()))   # iterable-of-pairs form
